@@ -263,3 +263,17 @@ check("C15",
       "TLA+ spec (GraphQ) model-checked with TLC incl. 8 deviations; batched TLC trace validation of recorded real executions; "
       "built-in corrupted-trace and code-mutant self-test",
       "DESIGN.md 4/C15", modules=("GraphQ", "MCGraphQ", "GraphQTrace"))
+
+check("C10",
+      "TLC exhausts Readers.tla (line-level machines of read_mol2+yield_from_mol2 and read_xyz+yield_from_xyz with put_back) "
+      "over every line-boundary truncation, deletion, duplication, invalid-token / unknown-tag / count+-1 replacement of every "
+      "generated mol2/xyz file (<=3 molecules, <=2 atoms, <=1 bond, 5 header styles) for ErrorOrComplete, GoodAccepted, "
+      "Terminates; each TLC-enumerated (file, damage) pair and every bundled / molli-written / seeded text under the damage "
+      "catalogue (all line cuts, all byte offsets of the last record, del/dup of every line, every closed-vocabulary token "
+      "corrupted, counts +-1, seeded combinations) is given to the real Molecule.loads_all_mol2/xyz under a 5 s limit and the "
+      "outcome is validated by TLC against the same contract (declared counts computed by TLC from the damaged text; reference = "
+      "parse of the undamaged text, which must equal the model reader's result).",
+      "bounded model; files > 400 lines sampled; content compared through a digest of public accessors; free-text fields are not "
+      "corrupted; three format-level known findings (known_findings.json); trusted: TLC, harness tokenizer",
+      "TLA+ spec model-checked with TLC incl. 9 deviations; fault enumeration; batched TLC trace validation of real reader outcomes",
+      "DESIGN.md 4/C10", category="model_checking", modules=("Readers", "MCReaders", "ReadersTrace"))
